@@ -1,6 +1,7 @@
 """C11 — genetic maps and map functions: correspondence between Model/C11_Map.v + Model/C11_MapFn.v and
 StandardGeneticMap / ExtendedGeneticMap / HaldaneMapFunction / KosambiMapFunction /
-DenseGeneticMappableMatrix.interp_xoprob (through DenseGenotypeMatrix and DensePhasedGenotypeMatrix) / util.cM2d,
+DenseGeneticMappableMatrix.interp_genpos / interp_xoprob (through DenseGenotypeMatrix and DensePhasedGenotypeMatrix; single calls and
+sessions of several calls on one matrix object, Model/C11_Session.v) / util.cM2d,
 plus the independent predicate."""
 import math, warnings, copy
 from fractions import Fraction
@@ -29,7 +30,9 @@ LEVEL_TEXT = ("Coq theorems: over R, Haldane and Kosambi map 0 to 0, [0,inf) int
               "after ANY selection of markers (select/remove/prune) keeping two per chromosome the map is well-formed and interpolation is exact "
               "at the remaining markers and on their chords; interpolation is covariant under scaling of the genetic positions and invariant "
               "under a common translation of physical positions and query; sequential distances of a window of a query are those of the sliced "
-              "query. The kernel expressions and call shapes on which these theorems turn (bodies of mapfn/invmapfn, 0.01 factor, default sort keys, "
+              "query; in a session on one variant matrix (any state carried from the constructor, any earlier calls) interp_xoprob stores exactly the generated "
+              "kernel expression of the map and map function given to that call, interp_genpos the positions of its map (vrnt_xoprob untouched), "
+              "after every call of any session. The kernel expressions and call shapes on which these theorems turn (bodies of mapfn/invmapfn, 0.01 factor, default sort keys, "
               "group metadata, congruence comparison, spline mask/knots/assume_sorted, KeyError -> NaN, operand order of the sequential "
               "difference, |gi-gj| and the inf mask, row/column slice bounds, call shapes of gdist1p/gdist2p/rprob*/interp_xoprob) are regenerated "
               "from the source of both map classes on every run (Gen/C11_Kernel.v), proved equal to the model (Proofs/C11_Kernel.v) and the laws "
@@ -56,7 +59,13 @@ RULE = ("case kinds: mapfn (a vector of distances incl. 0, denormals, grid point
         "remaining markers, outside and on an absent chromosome, right after the reduction and after build_spline), select (grid map reduced by "
         "select(index array | mask), remove(index array | slice) or ExtendedGeneticMap.prune(nt | M | both); an earlier deep copy must not follow), "
         "wide (130-300 markers per chromosome, labels beyond int8/int16, a discordant marker and a removal beyond index 255), audit (introspection "
-        "of the anchored modules against the ENTRY_POINTS / SKIPPED tables); every gmap case also obtains its map through the library's own "
+        "of the anchored modules against the ENTRY_POINTS / SKIPPED tables), gmsess (a SESSION on ONE DenseGenotypeMatrix | DensePhasedGenotypeMatrix "
+        "object constructed without / with vrnt_genpos / with vrnt_genpos and vrnt_xoprob: 2-5 calls of interp_genpos(map) | interp_xoprob(map, fn) with "
+        "map A (std|ext), another map B on the same chromosomes with other positions (perhaps a chromosome less / one more), Haldane | Kosambi objects "
+        "shared by the whole session, the same map object after select(idx|mask) / remove / remove_discrepancies / prune / vrnt_genpos setter (array | "
+        "tuple form, scaled and translated) + build_spline, on the object or on a deep copy taken in between; after EVERY call the stored vrnt_genpos / "
+        "vrnt_xoprob are compared with the model of the map as it is at that call (exact, bit-for-bit, interval enclosures) and, by the predicate, with "
+        "exact interpolation between the flanking markers of the map given to that call and its map function); every gmap case also obtains its map through the library's own "
         "routes (DataFrame / csv / egmap round trips with default and custom columns, property setters, ungroup+group, reorder, sort, select-all, "
         "remove-none on copies) and probes aliasing (in-place writes into results, into copies' arrays and spline dictionaries and into the map "
         "returned by interp_gmap must not reach the map); grid maps carry genetic scales 2^-40..2^10 and physical offsets up to 2^40; non-trivial = "
@@ -442,6 +451,96 @@ def _wide_case(rng, cls=None):
         case["stop"] = [r[1] + 1 for r in rows]; case["name"] = None; case["fncode"] = None
     return case
 
+
+# ---- sessions on one variant matrix ----------------------------------------------------------------------------------------
+def _sess_init(spec):
+    """rows a map built from `spec` stores, in stored order: (chromosome, physical, genetic, index of the row in the spec)"""
+    t = [(r[0], r[1], xf(r[2]), i) for i, r in enumerate(spec["rows"])]
+    return sorted(t, key=lambda r: (r[0], r[1], r[2]))
+
+def _sess_apply(st, pre):
+    """rows the map stores after the operation `pre` was applied to it; None = which markers stay is not fixed by the case (prune)"""
+    if st is None or pre is None: return st
+    op = pre["op"]
+    if op in ("select_idx", "select_mask"): return [st[i] for i in sorted(pre["keep"])]
+    if op == "remove_idx": return [t for i, t in enumerate(st) if i not in pre["drop"]]
+    if op == "rd":
+        flags = [i == 0 or st[i - 1][0] != t[0] or st[i - 1][2] <= t[2] for i, t in enumerate(st)]
+        return st if all(flags) else [t for t, f in zip(st, flags) if f]
+    if op == "setgen":
+        a, b = xf(pre["a"]), xf(pre["b"])
+        return [(c, x, g * a + b, i) for c, x, g, i in st]
+    return None                                                     # prune
+
+def _sess_ok(st):
+    cnt = {}
+    for c, _, _, _ in st: cnt[c] = cnt.get(c, 0) + 1
+    return all(v >= 2 for v in cnt.values())
+
+def _sess_spec(rng, cls, rows):
+    n = len(rows)
+    s = {"cls": cls, "rows": [[c, x, fx(g)] for c, x, g in rows]}
+    if cls == "ext":
+        s["stop"] = [x + rng.randrange(0, 5) for _, x, _ in rows]
+        s["name"] = list(range(100, 100 + n)) if rng.random() < 0.8 else None
+        s["fncode"] = [rng.randrange(0, 3) for _ in range(n)] if rng.random() < 0.6 else None
+    return s
+
+def _gmsess_case(rng, i=0):
+    """ONE variant matrix (constructed with or without vrnt_genpos / vrnt_xoprob), interpolated several times in a row: with map A,
+    with another map B on the same chromosomes (other positions, perhaps a chromosome less / more), with another map function, with
+    the same map after it was reduced (select / remove / remove_discrepancies / prune) or given other genetic positions through the
+    vrnt_genpos setter (+ build_spline), on the object itself or on a deep copy of it taken in between"""
+    grid = rng.random() < 0.7
+    rows, labels, _ = _gen_map(rng, grid)
+    clsA, clsB = ("std", "ext")[i % 2], rng.choice(["std", "ext"])
+    congB = rng.random() < 0.6
+    gsB = Fraction(2) ** rng.choice([0, 0, -8, -20] + ([4] if congB else []))
+    drop = rng.choice(labels) if len(labels) >= 2 and rng.random() < 0.35 else None
+    rowsB = []
+    for c in labels:
+        if c == drop: continue
+        xs = sorted(r[1] for r in rows if r[0] == c)
+        gens = [Fraction(rng.randrange(-64, 4096), 256) * gsB if grid else rng.random() * rng.choice([0.5, 2.0, 5.0]) for _ in xs]
+        if congB: gens = sorted(gens)
+        rowsB += [[c, x, float(g)] for x, g in zip(xs, gens)]
+    absent = [c for c in range(-3, 14) if c not in labels]
+    if rng.random() < 0.25:                                          # a chromosome that only map B knows
+        c = rng.choice(absent); x0 = rng.randrange(0, 60)
+        rowsB += [[c, x0, 0.25], [c, x0 + 2 ** rng.randrange(0, 6), 0.75]]
+    rng.shuffle(rowsB)
+    spec = {"A": _sess_spec(rng, clsA, rows), "B": _sess_spec(rng, clsB, rowsB)}
+    variants = _gen_query(rng, rows, labels, rng.choice([2, 3, 4, 5, 6, 8]), far=False)
+    st = {k: _sess_init(spec[k]) for k in spec}
+    steps = []; prev = None
+    for j in range(rng.choice([2, 3, 3, 4, 5])):
+        key = rng.choice("AB") if prev is None else (("B" if prev == "A" else "A") if rng.random() < 0.55 else prev)
+        pre = None
+        cur = st[key]
+        if cur is not None and rng.random() < (0.75 if key == prev else 0.3):
+            n = len(cur)
+            ends = [k for k in range(n) if k == 0 or k == n - 1 or cur[k - 1][0] != cur[k][0] or cur[k + 1][0] != cur[k][0]]
+            ops = ["select_idx", "select_mask", "remove_idx", "setgen", "setgen"]
+            if spec[key]["cls"] == "ext": ops.append("prune")
+            if _sess_apply(cur, {"op": "rd"}) != cur and _sess_ok(_sess_apply(cur, {"op": "rd"})): ops += ["rd", "rd"]
+            op = rng.choice(ops)
+            if op in ("select_idx", "select_mask", "remove_idx"):
+                keep = [k for k in range(n) if k in ends or rng.random() < 0.5]
+                if op == "select_idx": rng.shuffle(keep)
+                pre = {"op": op, "keep": keep} if op != "remove_idx" else {"op": op, "drop": [k for k in range(n) if k not in keep]}
+            elif op == "setgen":
+                pre = {"op": op, "a": fx(rng.choice([0.5, 2.0, 1.0, 2.0 ** -10, 4.0])), "b": fx(rng.choice([0.0, 0.25, -1.0, 3.5])),
+                       "form": rng.choice(["array", "tuple"])}
+            elif op == "prune": pre = {"op": op, "nt": rng.choice([1, 2, 3, 8, 20, 64])}
+            else: pre = {"op": "rd"}
+            st[key] = _sess_apply(cur, pre)
+        steps.append({"call": "xoprob" if rng.random() < 0.65 else "genpos", "map": key, "fn": rng.choice(["haldane", "kosambi"]),
+                      "pre": pre, "dc": rng.random() < 0.2})
+        prev = key
+    steps[-1]["call"] = "xoprob"
+    return {"kind": "gmsess", "grid": bool(grid), "units": "M", "A": spec["A"], "B": spec["B"], "variants": variants,
+            "gmat": rng.choice(["unphased", "phased"]), "init": rng.choice(["none", "genpos", "both", "both"]), "steps": steps}
+
 def gen_cases(rng, tier):
     cases = [{"kind": "audit"}]
     nm, ng, ni = (30, 170, 6) if tier == "quick" else (400, 3000, 40)
@@ -461,6 +560,7 @@ def gen_cases(rng, tier):
         cases.append(_select_case(rng, "ext" if op == "prune" else ("std", "ext")[(i // 4) % 2], op))
     for i in range(ni): cases.append(_select_case(rng))
     for i in range(2 if tier == "quick" else 12): cases.append(_wide_case(rng, ("std", "ext")[i % 2]))
+    for i in range(24 if tier == "quick" else 300): cases.append(_gmsess_case(rng, i))
     return cases
 
 # ----------------------------------------------------------------------------------------------- implementation driver
@@ -501,6 +601,7 @@ def run_impl(case):
     if case["kind"] == "rmdisc": return _run_rmdisc(case)
     if case["kind"] == "select": return _run_select(case)
     if case["kind"] == "wide": return _run_wide(case)
+    if case["kind"] == "gmsess": return _run_gmsess(case)
     return _run_gmap(case)
 
 def _fnobj(name):
@@ -586,6 +687,65 @@ def _run_gmap(case):
         out["ng_inputs_unchanged"] = ng_unch
         out["routes"] = _routes(g, cls, case, qc, qp)
         out["alias"] = _alias_probe(g, cls, qc, qp)
+    return out
+
+def _sess_init_values(case):
+    """what the matrix is constructed with: a junk position / probability per variant (a function of the variant, so that ties
+    between equal variants cannot matter)"""
+    gp = [7.0 + x / 1024.0 + c for c, x in case["variants"]]
+    xo = [0.25 + (x % 7) / 64.0 for c, x in case["variants"]]
+    return (gp if case["init"] in ("genpos", "both") else None), (xo if case["init"] == "both" else None)
+
+def _run_gmsess(case):
+    from pybrops.popgen.gmat.DenseGenotypeMatrix import DenseGenotypeMatrix
+    from pybrops.popgen.gmat.DensePhasedGenotypeMatrix import DensePhasedGenotypeMatrix
+    maps = {}
+    for key in ("A", "B"):
+        sp = case[key]
+        maps[key], _ = _mk_map(sp["cls"], sp["rows"], case["units"], sp.get("stop"), sp.get("name"), sp.get("fncode"))
+    fns = {"haldane": _fnobj("haldane"), "kosambi": _fnobj("kosambi")}       # the two map-function objects serve the whole session
+    qc = numpy.array([q[0] for q in case["variants"]], dtype="int64"); qp = numpy.array([q[1] for q in case["variants"]], dtype="int64")
+    nv = len(qc)
+    gp0, xo0 = _sess_init_values(case)
+    kw = {}
+    if gp0 is not None: kw["vrnt_genpos"] = numpy.array(gp0, dtype=float)
+    if xo0 is not None: kw["vrnt_xoprob"] = numpy.array(xo0, dtype=float)
+    if case["gmat"] == "phased":
+        gm = DensePhasedGenotypeMatrix(numpy.zeros((2, 2, nv), dtype="int8"), vrnt_chrgrp=qc.copy(), vrnt_phypos=qp.copy(), **kw)
+    else:
+        gm = DenseGenotypeMatrix(numpy.zeros((2, nv), dtype="int8"), vrnt_chrgrp=qc.copy(), vrnt_phypos=qp.copy(), ploidy=2, **kw)
+    gm.group_vrnt()
+    opt = lambda a: None if a is None else fxl(a)
+    out = {"chr": il(gm.vrnt_chrgrp), "phy": il(gm.vrnt_phypos), "genpos0": opt(gm.vrnt_genpos), "xoprob0": opt(gm.vrnt_xoprob), "steps": []}
+    with warnings.catch_warnings():
+        warnings.simplefilter("ignore")
+        for stp in case["steps"]:
+            m = maps[stp["map"]]; pre = stp["pre"]
+            if pre is not None:
+                op = pre["op"]
+                if op == "select_idx": m.select(numpy.array(pre["keep"], dtype=int))
+                elif op == "select_mask":
+                    mk = numpy.zeros(len(m), dtype=bool); mk[pre["keep"]] = True; m.select(mk)
+                elif op == "remove_idx": m.remove(numpy.array(pre["drop"], dtype=int))
+                elif op == "rd": m.remove_discrepancies()
+                elif op == "prune": m.prune(nt=pre["nt"], M=None)
+                else:
+                    new = (m.vrnt_genpos * xf(pre["a"])) + xf(pre["b"])
+                    m.vrnt_genpos = new if pre["form"] == "array" else (new, "M")
+                    m.build_spline()
+            if stp["dc"]: gm = copy.deepcopy(gm)                      # the matrix goes on as a deep copy of itself
+            rec = {"map": {"chr": il(m.vrnt_chrgrp), "phy": il(m.vrnt_phypos), "gen": fxl(m.vrnt_genpos), "grouped": bool(m.is_grouped()),
+                           "keys": sorted(int(k) for k in m.spline.keys())}}
+            other = maps["B" if stp["map"] == "A" else "A"]
+            before = (il(other.vrnt_chrgrp), il(other.vrnt_phypos), fxl(other.vrnt_genpos))
+            with numpy.errstate(all="ignore"):
+                if stp["call"] == "xoprob": gm.interp_xoprob(m, fns[stp["fn"]])
+                else: gm.interp_genpos(m)
+            rec["genpos"] = opt(gm.vrnt_genpos); rec["xoprob"] = opt(gm.vrnt_xoprob)
+            rec["variants_same"] = bool(il(gm.vrnt_chrgrp) == out["chr"] and il(gm.vrnt_phypos) == out["phy"])
+            rec["maps_same"] = bool((il(other.vrnt_chrgrp), il(other.vrnt_phypos), fxl(other.vrnt_genpos)) == before
+                                    and (il(m.vrnt_chrgrp), il(m.vrnt_phypos), fxl(m.vrnt_genpos)) == (rec["map"]["chr"], rec["map"]["phy"], rec["map"]["gen"]))
+            out["steps"].append(rec)
     return out
 
 def _routes(g, cls, case, qc, qp):
@@ -839,6 +999,31 @@ def emit_case(case, out):
     if "exc" in out: return "false"
     if case["kind"] == "audit": return E.b(not _pred_audit(case, out))
     if '"-inf"' in __import__("json").dumps(out): return None          # exp() overflow on absurd negative gaps: predicate only
+    if case["kind"] == "gmsess":
+        binds = [("v", "list (Z * Z)", _pairs(case["variants"])), ("sv", "list (Z * Z)", _pairs(list(zip(out["chr"], out["phy"]))))]
+        gens = {k: [xf(r[2]) for r in case[k]["rows"]] for k in "AB"}; ver = {"A": 0, "B": 0}; bound = set()
+        shifted = {"A": False, "B": False}        # a translation of the genetic positions costs the exactness of binary64 interpolation
+        parts = []
+        for stp, rec in zip(case["steps"], out["steps"]):
+            k = stp["map"]; sp = case[k]
+            if stp["pre"] is not None and stp["pre"]["op"] == "setgen":
+                a, b = xf(stp["pre"]["a"]), xf(stp["pre"]["b"])
+                gens[k] = [g * a + b for g in gens[k]]; ver[k] += 1; shifted[k] = shifted[k] or b != 0.0
+            name = "raw%s%d" % (k, ver[k])
+            if name not in bound:
+                bound.add(name)
+                pc = dict(sp); pc["rows"] = [[r[0], r[1], fx(g)] for r, g in zip(sp["rows"], gens[k])]
+                binds.append((name, "raw_t", _raw(pc)))
+            have = set(zip(rec["map"]["chr"], rec["map"]["phy"]))
+            order = sorted(range(len(sp["rows"])), key=lambda i: (sp["rows"][i][0], sp["rows"][i][1], gens[k][i]))
+            mask = [(sp["rows"][i][0], sp["rows"][i][1]) in have for i in order]
+            if rec["genpos"] is None or (stp["call"] == "xoprob" and rec["xoprob"] is None): return "false"
+            parts.append("check_gmat_call %s false %s %s %s v sv %s %s %s" % (
+                E.b(case["grid"] and all(mask) and not shifted[k]), _kind(stp["fn"]), name, E.lst(mask, E.b), E.lst(rec["genpos"], _ext), E.lst(rec["genpos"], _fl),
+                "(Some %s)" % E.lst(rec["xoprob"], _ext) if stp["call"] == "xoprob" else "None"))
+            parts.append(E.b(rec["variants_same"] and rec["maps_same"] and sum(mask) == len(rec["map"]["chr"])))
+        head = "".join("let %s : %s := %s in\n   " % b for b in binds)
+        return "(" + head + "\n   && ".join(parts) + ")"
     if case["kind"] == "igmap":
         if isinstance(out["re"], dict) or isinstance(out["re_congruent"], dict): return "false"
         def view(d):
@@ -1354,11 +1539,72 @@ def _pred_select(case, out):
         bad.append("%s: a deep copy taken before the reduction changed with it" % op)
     return bad
 
+def _pred_gmsess(case, out):
+    """a session on ONE variant matrix: after every call the stored vrnt_genpos is the linear interpolation of the matrix's variants
+    between the flanking markers of the map GIVEN TO THAT CALL (its rows as they are at the call; missing off the map), and after
+    interp_xoprob the stored vrnt_xoprob is the map function GIVEN TO THAT CALL of the consecutive gaps of those positions (1/2 at
+    chromosome starts) - whatever the matrix carried from its constructor or from earlier calls"""
+    bad = []
+    sv = sorted(tuple(q) for q in case["variants"])
+    if [tuple(t) for t in zip(out["chr"], out["phy"])] != sv: bad.append("variant matrix: group_vrnt() did not sort the variants by (chromosome, physical)")
+    gp0, xo0 = _sess_init_values(case)
+    for label, given, got in (("vrnt_genpos", gp0, out["genpos0"]), ("vrnt_xoprob", xo0, out["xoprob0"])):
+        if given is None:
+            if got is not None: bad.append("variant matrix: constructed without %s but carries one" % label)
+        elif got is None or sorted(zip(case["variants"], given), key=lambda t: tuple(t[0])) != [(list(a), xf(b)) for a, b in zip(sv, got)]:
+            bad.append("variant matrix: %s given to the constructor did not travel with its variants" % label)
+    st = {k: _sess_init(case[k]) for k in "AB"}
+    shifted = {"A": False, "B": False}
+    for j, (stp, rec) in enumerate(zip(case["steps"], out["steps"])):
+        k = stp["map"]; pre = stp["pre"]
+        if pre is not None and pre["op"] == "setgen" and xf(pre["b"]) != 0.0: shifted[k] = True
+        what = "call %d (%s with map %s%s%s)" % (j + 1, "interp_xoprob" if stp["call"] == "xoprob" else "interp_genpos", k,
+                                               "" if pre is None else " after " + pre["op"], ", " + stp["fn"] if stp["call"] == "xoprob" else "")
+        m = rec["map"]
+        have = list(zip(m["chr"], m["phy"], [xf(v) for v in m["gen"]]))
+        want = _sess_apply(st[k], pre)
+        if want is None:                                             # prune: any subset keeping the ends of every chromosome
+            prev = st[k]; hs = set(have)
+            if not hs <= set(t[:3] for t in prev) or have != [t[:3] for t in prev if t[:3] in hs]: bad.append("%s: prune left markers the map did not hold" % what)
+            for i, t in enumerate(prev):
+                if (i == 0 or prev[i - 1][0] != t[0] or i == len(prev) - 1 or prev[i + 1][0] != t[0]) and t[:3] not in hs:
+                    bad.append("%s: prune dropped the first / last marker of a chromosome" % what); break
+            want = [t for t in prev if t[:3] in hs]
+        elif have != [t[:3] for t in want]: bad.append("%s: the map does not store the markers / positions it was left with" % what)
+        st[k] = want
+        if not m["grouped"] or m["keys"] != sorted(set(m["chr"])): bad.append("%s: the map is not grouped or its spline does not cover exactly its chromosomes" % what)
+        if not rec["variants_same"]: bad.append("%s: the call changed the matrix's variants" % what)
+        if not rec["maps_same"]: bad.append("%s: the call changed a genetic map" % what)
+        knots = {}
+        for c, x, g in have: knots.setdefault(c, []).append((x, Fraction(g)))
+        if rec["genpos"] is None: bad.append("%s: vrnt_genpos is not set" % what); continue
+        gp = [xf(v) for v in rec["genpos"]]
+        exact = case["grid"] and len(have) == len(case[k]["rows"]) and not shifted[k]
+        for (c, x), v in zip(sv, gp):
+            if c not in knots:
+                if not math.isnan(v): bad.append("%s: chromosome %d is absent from the map of this call but vrnt_genpos holds %r" % (what, c, v))
+                continue
+            w = _interp_exact(knots[c], x)
+            tol = 0 if exact else Fraction(1, 2 ** 40) * max(abs(y) for _, y in knots[c])
+            if math.isnan(v) or math.isinf(v) or abs(Fraction(v) - w) > tol:
+                bad.append("%s: vrnt_genpos of variant (%d,%d) = %r, the map given to this call yields %r" % (what, c, x, v, float(w))); break
+        if stp["call"] != "xoprob": continue
+        if rec["xoprob"] is None: bad.append("%s: vrnt_xoprob is not set" % what); continue
+        xo = [xf(v) for v in rec["xoprob"]]
+        for i in range(len(sv)):
+            if i == 0 or sv[i - 1][0] != sv[i][0]:
+                if xo[i] != 0.5: bad.append("%s: vrnt_xoprob at a chromosome start [%d] = %r != 0.5" % (what, i, xo[i])); break
+            else:
+                w = _mapfn_py(stp["fn"], gp[i] - gp[i - 1])
+                if not _close(xo[i], w, 2.0 ** -46):
+                    bad.append("%s: vrnt_xoprob[%d] = %r, the map function given to this call yields %s(gap %r) = %r" % (what, i, xo[i], stp["fn"], gp[i] - gp[i - 1], w)); break
+    return bad
+
 def pred(case, out):
     """the property, stated directly on the implementation's outputs (independent of the Coq model)"""
     if "exc" in out:
         return ["implementation raised %s: %s" % (out["exc"], out["msg"])]
-    bad = {"mapfn": _pred_mapfn, "gmap": _pred_gmap, "igmap": _pred_igmap, "rmdisc": _pred_rmdisc, "select": _pred_select, "audit": _pred_audit, "wide": _pred_wide}[case["kind"]](case, out)
+    bad = {"mapfn": _pred_mapfn, "gmap": _pred_gmap, "igmap": _pred_igmap, "rmdisc": _pred_rmdisc, "select": _pred_select, "audit": _pred_audit, "wide": _pred_wide, "gmsess": _pred_gmsess}[case["kind"]](case, out)
     seen = []
     for b in bad:
         if b not in seen: seen.append(b)
@@ -1367,6 +1613,8 @@ def pred(case, out):
 def nontrivial(case, out):
     if case["kind"] == "mapfn": return sum(1 for v in case["d"] if v not in ("inf",)) >= 6
     if case["kind"] == "audit": return False
+    if case["kind"] == "gmsess":           # the matrix carries positions when a call arrives
+        return len(case["steps"]) >= 2 or case["init"] != "none"
     if case["kind"] != "gmap": return True
     chrs = set(r[0] for r in case["rows"])
     knots = {}
@@ -1382,6 +1630,10 @@ def describe(case, out):
     if case["kind"] in ("igmap", "rmdisc"): return {"kind": case["kind"], "cls": case["cls"], "raised": "exc" in out}
     if case["kind"] == "wide": return {"kind": "wide", "cls": case["cls"], "nmarkers": len(case["rows"]), "nchr": len(set(r[0] for r in case["rows"])), "raised": "exc" in out}
     if case["kind"] == "select": return {"kind": "select", "cls": case["cls"], "op": case["op"], "raised": "exc" in out}
+    if case["kind"] == "gmsess":
+        return {"kind": "gmsess", "cls": case["A"]["cls"] + "/" + case["B"]["cls"], "gmat": case["gmat"], "init": case["init"], "ncalls": len(case["steps"]),
+                "maps_used": "".join(sorted(set(s["map"] for s in case["steps"]))), "map_changed": sorted(set(s["pre"]["op"] for s in case["steps"] if s["pre"])),
+                "deepcopy_between": any(s["dc"] for s in case["steps"]), "raised": "exc" in out}
     knots = set(r[0] for r in case["rows"])
     return {"kind": "gmap", "cls": case["cls"], "units": case["units"], "grid": case["grid"], "nchr": len(knots),
             "nmarkers": len(case["rows"]), "nquery": len(case["query"]), "fn": case["fn"], "gmat": case["gmat"],
